@@ -420,9 +420,24 @@ class Ev:
             new = ast.If(st.value.test, [ast.copy_location(ast.Assign([st.targets[0]], st.value.body), st)],
                          [ast.copy_location(ast.Assign([st.targets[0]], st.value.orelse), st)])
             return self.stmt(ast.fix_missing_locations(ast.copy_location(new, st)))
+        self.s_Assign_gen(st)
         v = self.ev(st.value)
         for t in st.targets:
             self.assign(t, v, st)
+
+    def s_Assign_gen(self, st):
+        """remember `name = (genexp)` so that a later `for x in name` over literal generators can be written out"""
+        if isinstance(st, ast.Assign) and len(st.targets) == 1 and isinstance(st.targets[0], ast.Name) and isinstance(st.value, (ast.GeneratorExp, ast.ListComp)):
+            if not hasattr(self, "_gen_ast"):
+                self._gen_ast = {}
+            if any(isinstance(n, ast.Name) and n.id == st.targets[0].id for n in ast.walk(st.value)):
+                self._gen_ast.pop(st.targets[0].id, None)          # names = [f(x) for x in names]: not a literal source
+            else:
+                self._gen_ast[st.targets[0].id] = st.value
+        elif isinstance(st, ast.Assign) and hasattr(self, "_gen_ast"):
+            for t in st.targets:
+                for nm in assigned_names([t]):
+                    self._gen_ast.pop(nm, None)
 
     def s_AnnAssign(self, st):
         if st.value is not None:
@@ -632,6 +647,44 @@ class Ev:
             va = self.env[node.id].as_atom()
             if va and va[0] == "str" and isinstance(va[1], str) and 1 <= len(va[1]) <= 6:
                 return [P.atom(("str", c)) for c in va[1]]
+        if isinstance(node, ast.Name) and node.id in getattr(self, "_gen_ast", {}) and node.id not in self.opaque:
+            # a local bound to a generator expression over literals (digits = (rotation[i, j] for i in (2, 1, 0) for j in (2, 1, 0)))
+            src = self._gen_ast.pop(node.id)
+            try:
+                return self._literal_iter(src)
+            finally:
+                self._gen_ast[node.id] = src
+        if isinstance(node, (ast.GeneratorExp, ast.ListComp)) and not any(g.ifs or g.is_async for g in node.generators):
+            # (elt for i in (2, 1, 0) for j in (2, 1, 0)): every generator literal -> the elements, first generator outermost
+            lits = [self._literal_iter(g.iter) for g in node.generators]
+            if all(l is not None for l in lits):
+                n = 1
+                for l in lits:
+                    n *= len(l)
+                if 0 < n <= self.MAX_UNROLL:
+                    out = []
+
+                    def rec(k):
+                        if k == len(lits):
+                            out.append(self.ev(node.elt))
+                            return
+                        for v in lits[k]:
+                            self.assign(node.generators[k].target, v, node)
+                            rec(k + 1)
+                    saved = dict(self.env)
+                    rec(0)
+                    for g in node.generators:
+                        for nm in assigned_names([g.target]):
+                            if nm in saved:
+                                self.env[nm] = saved[nm]
+                            else:
+                                self.env.pop(nm, None)
+                    return out
+            return None
+        if isinstance(node, ast.Name) and node.id in self.env and node.id not in self.opaque:
+            kl = self._known_list(self.env[node.id])
+            if kl is not None:
+                return kl
         if isinstance(node, ast.Constant) and isinstance(node.value, str) and 1 <= len(node.value) <= 6:
             # for c in "xyz": the characters, in order
             return [self.ev(ast.Constant(c)) for c in node.value]
@@ -643,6 +696,36 @@ class Ev:
                 if 0 < len(r) <= self.MAX_UNROLL:
                     return [P.const(i) for i in r]
         return None
+
+    def _known_list(self, v):
+        """The items of a local list whose whole history is in view: created from a literal in this function and only ever appended to,
+        outside loops and under the guards of its creation (digits = []; digits.append(a); digits.append(b) -- after a helper was inlined
+        and its counting loop unrolled).  None when anything else touches the list."""
+        a = v.as_atom() if v is not None else None
+        if not (a and a[0] == "obj"):
+            return None
+        items = seq_items(a[3])
+        if items is None:
+            return None
+        key = v.key()
+        born = [e for e in self.events if e.kind == "assign" and e.value is not None and e.value.key() == key]
+        if not born or born[0].loops:
+            return None
+        out = list(items)
+        for e in self.events:
+            if e is born[0]:
+                continue
+            tk = e.target.key() if e.target is not None else ""
+            if e.kind == "call" and tk == key + ".append" and len(e.extra.get("args", ())) == 1 and not e.loops and e.guards == born[0].guards:
+                out.append(e.extra["args"][0])
+                continue
+            if e.kind == "assign" and e.value is not None and e.value.key() == key:
+                continue                      # another name for the same list
+            if e.kind == "call" and call_name(e.value.as_atom() or ()) == "len":
+                continue
+            if key in tk or (e.value is not None and key in e.value.key() and e.kind in ("call", "store", "aug")):
+                return None
+        return out if 0 < len(out) <= self.MAX_UNROLL else None
 
     def s_For(self, st):
         k = self.loop_counter
